@@ -1197,28 +1197,77 @@ def dealias(fn):
     if not cands:
         return 0
     addr = {lvalue_root(x["e"]) for x in fn.nodes() if x.get("k") == "un" and x.get("op") == "&"}
-    uses = [x for x in fn.nodes() if x.get("k") == "ref" and x.get("decl") in cands]
+    uses = {}
+    for x in fn.nodes():
+        if x.get("k") == "ref" and x.get("decl") in cands:
+            uses.setdefault(x["decl"], []).append(x)
     n = 0
-    for x in uses:
-        v, r = cands[x["decl"]]
-        if v["decl"] in addr or r["decl"] in addr:
+    # a copy of a copy: the inner one first, so that the outer one's initialiser already names the original
+    order = sorted(cands, key=lambda d: (cands[d][1].get("decl") in cands, d))
+    for d in order:
+        v = cands[d][0]
+        r = strip_all_casts(v["init"])
+        if r.get("k") != "ref" or r.get("dk") not in ("local", "param") or r.get("decl") == d:
             continue
-        if current_definition(fn, x) is None:
+        r = dict(r)
+        if d in addr or r["decl"] in addr:
             continue
-        newref = dict(r)
-        newref["id"] = -(10 ** 7) - x["id"]
-        old = dict(x)
-        x.clear()
-        x.update({"k": "cast", "id": old["id"], "t": v["t"], "e": newref, "ck": "alias-of-local"})
-        if old.get("loc"):
-            x["loc"] = old["loc"]
-        n += 1
+        for x in uses.get(d, []):
+            if x.get("k") != "ref" or current_definition(fn, x) is None:
+                continue
+            # the copy's whole initialiser (conversions included: a narrowing copy stays a narrowing), with fresh node ids
+            cnt = [0]
+
+            def clone(y):
+                if isinstance(y, list):
+                    return [clone(z) for z in y]
+                if not isinstance(y, dict):
+                    return y
+                out = {k2: (v2 if k2 in NONCHILD_KEYS else clone(v2)) for k2, v2 in y.items()}
+                if "id" in out and "k" in out:
+                    cnt[0] += 1
+                    out["id"] = -(10 ** 7) - x["id"] * 64 - cnt[0]
+                return out
+            newref = clone(v["init"])
+            old = dict(x)
+            x.clear()
+            x.update({"k": "cast", "id": old["id"], "t": v["t"], "e": newref, "ck": "NoOp", "alias": True})
+            if old.get("loc"):
+                x["loc"] = old["loc"]
+            n += 1
+        fn._nodes = None
+        fn._parent = None
+        if hasattr(fn, "_local_defs_cache"):
+            del fn._local_defs_cache
     if n:
         fn._nodes = None
         fn._parent = None
         if hasattr(fn, "_local_defs_cache"):
             del fn._local_defs_cache
     return n
+
+
+def single_return_expr(g):
+    """The one expression a function returns when its body is `T a = <expr>; ...; return <expr>;` with every named part defined
+    once (the parts substituted into the result); None for any other body."""
+    if g is None or g.body is None:
+        return None
+    body = g.body.get("body", []) if g.body.get("k") == "compound" else [g.body]
+    named = {}
+    while len(body) > 1 and body[0].get("k") == "decl" and len(body[0].get("vars", [])) == 1 and isinstance(body[0]["vars"][0].get("init"), dict) and \
+            not body[0]["vars"][0].get("static"):
+        v = body[0]["vars"][0]
+        named[v["decl"]] = v["init"]
+        body = body[1:]
+    if len(body) != 1 or body[0].get("k") != "return" or not isinstance(body[0].get("e"), dict):
+        return None
+    e = body[0]["e"]
+    if named:
+        if any(len(ds) != 1 for d, ds in local_defs(g).items() if d in named):
+            return None
+        for _ in range(len(named)):
+            e = substitute(e, named)
+    return e
 
 
 def inline_accessor(fb, call):
